@@ -24,6 +24,7 @@ from core import coqrun
 
 ID = 'C08'
 PROPERTY_FILE = 'C08/Property.v'
+PROPERTY_FILES = ['C08/Property.v', 'C08/Examples.v']      # Examples: non-vacuity, re-checked on the generated layout
 LEVEL = 'proof'
 ALLOWED_AXIOMS = ()
 TRUSTED_BASE = [
@@ -390,6 +391,13 @@ def expectation(cmd, ver, xm, args):
     a = dict(zip([p[0] for p in CMDS[cmd][2]], args))
     if cmd == 'CHlSpiral' and ver < 8:
         return ('nothing',)          # documented: not supported before protocol version 8, only a warning
+    if cmd == 'CSetpoint' and xm and all(_is_num(x) or isinstance(x, bool) for x in args[:2]):
+        # documented: client-side X-mode recalculates roll and pitch before sending; what must be representable
+        # are the recalculated values
+        args = list(args)
+        args[0], args[1] = 0.707 * (args[0] - args[1]), 0.707 * (args[0] + args[1])
+        a = dict(zip([p[0] for p in CMDS[cmd][2]], args))
+        xm = False
     if cmd == 'CHlSpiral':
         # documented: angle limited to +-2pi, radii must be positive (negative ones are replaced by 0)
         args = list(args)
